@@ -266,8 +266,10 @@ func getUrl(_token Token, baseUrl string) (url pr.NamedString, attr pr.AttrData,
 		if name := utils.AsciiLower(token.Name); name == "attr" {
 			attr = checkAttrFunction(token, "url")
 			return
-		} else if L := len(token.Arguments); name == "url" && (L == 1 || L == 2) {
-			val, _ := (token.Arguments)[0].(pa.String)
+		} else if args := pa.RemoveWhitespace(token.Arguments); name == "url" && (len(args) == 1 || len(args) == 2) {
+			// a quoted url is a function token, whose arguments may start
+			// and end with white space
+			val, _ := args[0].(pa.String)
 			return parseURLToken(val.Value, baseUrl)
 		}
 	}
